@@ -174,98 +174,79 @@ func main() {
 		t0 = time.Now()
 	}
 
-	// ---------------- phase A ----------------
+	// ---------------- phase A, single perturbations ----------------
 	st := &identStats{partition: map[string]map[string]int{}}
 	var mu sync.Mutex
-	pairs := !r.Quick()
-	doneA := 0
-	for _, c := range cfgs {
-		if r.Expired() {
-			break
-		}
+	doneA, pairBlocks := 0, 0
+	sizesOf := func(c blockCfg) []int {
 		sizes := []int{types.DefaultBlockGossip().BlockPartSizeBytes, 64}
 		if !r.Quick() {
 			sizes = append(sizes, 7, encLen(c)/2)
 		}
-		checkIdentity(r, c, sizes, false, st, &mu)
-		if pairs {
-			checkIdentity(r, c, sizes[:2], true, st, &mu)
+		return sizes
+	}
+	for _, c := range cfgs {
+		if r.Expired() {
+			break
 		}
+		checkIdentity(r, c, sizesOf(c), false, st, &mu)
 		if !r.Expired() {
 			doneA++
 		}
 	}
 	if doneA < len(cfgs) {
-		r.Capped(fmt.Sprintf("phase A: deadline after %d of %d base blocks", doneA, len(cfgs)))
+		r.Capped(fmt.Sprintf("phase A: deadline after the single perturbations of %d of %d base blocks", doneA, len(cfgs)))
 	}
-	var partsOnly, hashMoves []string
-	rawBody := 0
-	for cl, m := range st.partition {
-		if m["neither"] > 0 {
-			continue // reported as a violation
-		}
-		if len(cl) > 4 && cl[:4] == "raw/" {
-			rawBody += m["parts-only"] + m["hash+parts"]
-			continue
-		}
-		if m["parts-only"] > 0 {
-			partsOnly = append(partsOnly, fmt.Sprintf("%s (%d of %d variants)", cl, m["parts-only"], m["parts-only"]+m["hash+parts"]+m["hash-only"]))
-		}
-		if m["hash+parts"]+m["hash-only"] > 0 {
-			hashMoves = append(hashMoves, cl)
-		}
-	}
-	sort.Strings(partsOnly)
-	sort.Strings(hashMoves)
-	r.Set("identity_base_blocks", doneA)
-	r.Set("identity_variants", st.variants)
-	r.Set("identity_variants_not_applicable", st.notApplicable)
-	r.Set("identity_variants_with_unchanged_content", st.sameContent)
-	r.Set("identity_distinct_ids", st.distinctIDs)
-	r.Set("identity_pairs_enumerated", pairs)
-	r.Set("identity_classes", len(st.partition))
-	// coverage information, not an oracle: perturbation classes that move ONLY the part-set hash (the block
-	// hash stays), for header fields and for body changes with the dependent header fields recomputed
-	r.Set("only_partset_hash_changes", partsOnly)
-	r.Set("block_hash_changes", hashMoves)
-	r.Set("raw_body_variants_partset_hash_only_by_construction", rawBody)
 
-	lap("phase A (identity)")
+	lap("phase A (singles)")
 
 	// ---------------- phase B ----------------
-	var searchCfgs []blockCfg
-	maxParts, depthExtra := 4, 1
+	type searchPlan struct {
+		cfgs       []blockCfg
+		maxParts   int
+		depthExtra int
+	}
+	var plans []searchPlan
 	if r.Quick() {
-		searchCfgs = []blockCfg{{1, 0, 0}, {1, 2, 1}, {2, 1, 1}, {2, 3, 0}, {3, 0, 2}, {3, 3, 2}}
+		plans = []searchPlan{{cfgs, 4, 1}, {[]blockCfg{{1, 0, 0}, {2, 1, 1}, {3, 3, 2}}, 6, 1}}
 	} else {
-		searchCfgs = cfgs
-		maxParts, depthExtra = 8, 2
+		plans = []searchPlan{{cfgs, 8, 2}}
 	}
 	states, trans, searches, merges := 0, 0, 0, 0
 	var per []interface{}
-	alphabetMax := 0
+	alphabetMax, maxParts := 0, 0
 	shapeCases := 0
-	for _, c := range searchCfgs {
-		for _, size := range sizesFor(c, maxParts) {
-			if r.Expired() {
-				break
-			}
-			pc := newPartCase(c, size, otherCfg(c), true)
-			res := pc.search(r, depthExtra)
-			shapeCases += wrongTotals(r, pc)
-			states += res.States
-			trans += res.Transitions
-			merges += res.MergeChecks
-			searches++
-			if len(pc.ops) > alphabetMax {
-				alphabetMax = len(pc.ops)
-			}
-			if len(per) < 40 {
-				per = append(per, map[string]interface{}{"search": pc.name, "parts": len(pc.genuine), "alphabet": len(pc.ops), "states": res.States,
-					"transitions": res.Transitions, "depth_completed": res.DepthCompleted, "per_depth": res.PerDepth})
-			}
-			if want := 1 << uint(len(pc.genuine)); res.States != want && !res.Capped && r.NViolations() == 0 {
-				vk.Fatalf("%s: %d states reached, the subset lattice has %d", pc.name, res.States, want)
+	done := map[string]bool{}
+	for _, pl := range plans {
+		if pl.maxParts > maxParts {
+			maxParts = pl.maxParts
+		}
+		for _, c := range pl.cfgs {
+			for _, size := range sizesFor(c, pl.maxParts) {
+				if r.Expired() {
+					break
+				}
+				if done[fmt.Sprintf("%v/%d", c, size)] {
+					continue
+				}
+				done[fmt.Sprintf("%v/%d", c, size)] = true
+				pc := newPartCase(c, size, otherCfg(c), true)
+				res := pc.search(r, pl.depthExtra)
+				shapeCases += wrongTotals(r, pc)
+				states += res.States
+				trans += res.Transitions
+				merges += res.MergeChecks
+				searches++
+				if len(pc.ops) > alphabetMax {
+					alphabetMax = len(pc.ops)
+				}
+				if len(pc.genuine) >= 4 && len(per) < 24 {
+					per = append(per, map[string]interface{}{"search": pc.name, "parts": len(pc.genuine), "alphabet": len(pc.ops), "states": res.States,
+						"transitions": res.Transitions, "depth_completed": res.DepthCompleted, "per_depth": res.PerDepth})
+				}
+				if want := 1 << uint(len(pc.genuine)); res.States != want && !res.Capped && r.NViolations() == 0 {
+					vk.Fatalf("%s: %d states reached, the subset lattice has %d", pc.name, res.States, want)
+				}
 			}
 		}
 	}
@@ -331,6 +312,61 @@ func main() {
 	r.Set("merkle_proofs_also_valid_under_another_total", cross)
 
 	lap("phase C (merkle)")
+
+	// ---------------- phase A, all pairs of perturbations (last: the most expensive part) ----------------
+	pairCfgs := []blockCfg{{2, 2, 1}}
+	if !r.Quick() {
+		pairCfgs = cfgs
+	}
+	for _, c := range pairCfgs {
+		if r.Expired() {
+			break
+		}
+		checkIdentity(r, c, sizesOf(c)[:r.Pick(1, 2)], true, st, &mu)
+		if !r.Expired() {
+			pairBlocks++
+		}
+	}
+	if pairBlocks < len(pairCfgs) {
+		r.Capped(fmt.Sprintf("phase A: deadline after all pairs of perturbations of %d of %d base blocks (all single perturbations were covered)", pairBlocks, len(pairCfgs)))
+	}
+	var partsOnly, hashMoves []string
+	rawBody := 0
+	for cl, m := range st.partition {
+		if m["neither"] > 0 {
+			continue // reported as a violation
+		}
+		if len(cl) > 4 && cl[:4] == "raw/" {
+			rawBody += m["parts-only"] + m["hash+parts"]
+			continue
+		}
+		if m["parts-only"] > 0 {
+			partsOnly = append(partsOnly, fmt.Sprintf("%s (%d of %d variants)", cl, m["parts-only"], m["parts-only"]+m["hash+parts"]+m["hash-only"]))
+		}
+		if m["hash+parts"]+m["hash-only"] > 0 {
+			hashMoves = append(hashMoves, cl)
+		}
+	}
+	sort.Strings(partsOnly)
+	sort.Strings(hashMoves)
+	r.Set("identity_base_blocks", doneA)
+	r.Set("identity_variants", st.variants)
+	r.Set("identity_variants_not_applicable", st.notApplicable)
+	r.Set("identity_variants_with_unchanged_content", st.sameContent)
+	r.Set("identity_distinct_ids", st.distinctIDs)
+	r.Set("identity_base_blocks_with_all_pairs", pairBlocks)
+	r.Set("identity_classes", len(st.partition))
+	r.Set("identity_ids_cross_checked_over_all_base_blocks", len(globalIDs))
+	r.Set("vote_signbytes_computed", signedIDs)
+	r.Set("vote_signbytes_distinct", signedBytes)
+	r.Set("vote_signbytes_distinct_ids", len(signedKeys))
+	// coverage information, not an oracle: perturbation classes that move ONLY the part-set hash (the block
+	// hash stays), for header fields and for body changes with the dependent header fields recomputed
+	r.Set("only_partset_hash_changes", partsOnly)
+	r.Set("block_hash_changes", hashMoves)
+	r.Set("raw_body_variants_partset_hash_only_by_construction", rawBody)
+
+	lap("phase A (pairs)")
 
 	r.Set("states", states)
 	r.Set("transitions", trans)
